@@ -3,7 +3,7 @@
    the .ml lands there. *)
 From Coq Require Import Extraction ExtrOcamlBasic.
 From Coq Require Import List NArith.
-From FsDb Require Import VList VListRun Codec Core Spec.
+From FsDb Require Import VList VListRun Codec Core Spec ErrMap ErrMapInst Config.
 
 Extraction Language OCaml.
 
@@ -11,4 +11,6 @@ Extraction "fsdb_model.ml"
   VListRun.vrun VListRun.vrun_spec
   Core.m_init Core.mstep Core.sort_keys
   Spec.a_init Spec.astep Spec.kvstep Spec.no_late_writes Spec.autocommit_only
+  ErrMapInst.errmap_run_err ErrMapInst.errmap_run_wire ErrMapInst.errmap_run_level ErrMapInst.errmap_run_plevel
+  Config.run_parse Config.run_valid
   Codec.run_marshal Codec.run_unmarshal Codec.uuid_format Codec.uuid_parse.
